@@ -2,7 +2,7 @@ SPECIFICATION Spec
 CONSTANTS
   Objs = {"o1", "o2"}
   HugeAvailable = FALSE
-  DeallocEarlyOut = FALSE
+  DeallocEarlyOut = TRUE
 INVARIANT NoLeak
 INVARIANT CyclesDoNotGrow
 PROPERTY FailureIsClean
